@@ -88,7 +88,7 @@ def generate(seed, tier):
     K = max(2, min(K, len(used)))
     weighted = rng.random() < 0.5
     return {"seed": seed, "q": rng.choice([0.0, 0.2, 0.5]), "spec": spec, "weighted": weighted,
-            "weights": [rng.randint(1, 4) for _ in spec["edges"]], "K": K, "sut_seed": rng.choice([0, 0, 1, None, rng.randint(0, 10**5), rng.randint(0, 10**5), rng.randint(0, 10**5)]),
+            "weights": [rng.randint(1, 4) if rng.random() < 0.93 else 0 for _ in spec["edges"]], "K": K, "sut_seed": rng.choice([0, 0, 1, None, rng.randint(0, 10**5), rng.randint(0, 10**5), rng.randint(0, 10**5)]),
             "reuse_object": rng.random() < 0.35,
             "n_real": rng.randint(1, 3), "max_iter": rng.randint(1, 30 if tier == "quick" else 80),
             "normalizeU": rng.random() < 0.4, "baseline_r0": rng.random() < 0.5,
